@@ -659,8 +659,46 @@ func ruleOpsIn(c *Ctx) []*Obligation {
 // ---- PANIC.div / PANIC.shift (module-wide) ----------------------------------------------------------------
 
 func isIntegerType(t types.Type) bool {
+	if tp, isParam := t.(*types.TypeParam); isParam {
+		// the body of a generic function: an integer division if some type of the constraint's type set is one
+		return typeSetHas(tp, func(u types.Type) bool { return isIntegerType(u) })
+	}
 	b, ok := t.Underlying().(*types.Basic)
 	return ok && b.Info()&types.IsInteger != 0
+}
+
+// typeSetHas: some term of the type parameter's constraint (unions and embedded constraint interfaces followed)
+// satisfies pred.
+func typeSetHas(tp *types.TypeParam, pred func(types.Type) bool) bool {
+	seen := map[*types.Interface]bool{}
+	var walk func(t types.Type) bool
+	walk = func(t types.Type) bool {
+		switch u := t.(type) {
+		case *types.Union:
+			for i := 0; i < u.Len(); i++ {
+				if walk(u.Term(i).Type()) {
+					return true
+				}
+			}
+			return false
+		case *types.TypeParam:
+			return walk(u.Constraint())
+		}
+		if it, ok := t.Underlying().(*types.Interface); ok {
+			if seen[it] {
+				return false
+			}
+			seen[it] = true
+			for i := 0; i < it.NumEmbeddeds(); i++ {
+				if walk(it.EmbeddedType(i)) {
+					return true
+				}
+			}
+			return false
+		}
+		return pred(t)
+	}
+	return walk(tp.Constraint())
 }
 
 func isSignedInt(t types.Type) bool {
